@@ -200,11 +200,19 @@ def selects_by(A, pat_a, pat_b):
     return any(has_eq_between(x, pat_a, pat_b) for e in A.events if e.kind in ("switch", "invoke") for x in e.vals)
 
 
-def farm_enumeration_bound(chk, A, lab):
+def _num(o):
+    m = re.match(r"Const\((\d+)_[ui]\d+\)$|Const\((\d+)_usize\)$", o)
+    return int(m.group(1) or m.group(2)) if m else None
+
+
+def _farm_takes(A):
+    return [e for e in A.calls(r"Iterator::take$") if "Store(FARMS)" in all_origins(vfield(A.d(e.extra["dargs"][0]), "[*]"))]
+
+
+def farm_enumeration_bound(chk, A, lab, W=None):
     """rewards / penalties must consider every farm of the LP token: the bound on the farms read from storage derives from
     the configured maximum or the hard cap, never from the pagination default alone"""
-    takes = [e for e in A.calls(r"Iterator::take$") if all_origins(vfield(vfield(A.d(e.extra["dargs"][0]), "[*]"), "1")) == {"Store(FARMS)"}
-             or "Store(FARMS)" in all_origins(vfield(A.d(e.extra["dargs"][0]), "[*]"))]
+    takes = _farm_takes(A)
     ok = any(e.extra.get("item") == "FARMS" for e in A.reads())   # anchor; no bound at all means every farm is read
     seen = []
     for e in takes:
@@ -213,6 +221,36 @@ def farm_enumeration_bound(chk, A, lab):
         ok = ok and ("Store(CONFIG).max_concurrent_farms" in o or o == {"Const(farm_manager::state::MAX_FARMS_LIMIT)"} or o == {"Const(100_u32)"})
     chk.expect(ok, "PROV-farm-enumeration-bound", lab, "the number of farms considered is bounded by the configured maximum / hard cap",
                "farms are enumerated with bound %s (the pagination default silently drops farms beyond it)" % seen, where(takes[0]) if takes else A.entry)
+    if W is not None and takes:
+        # sibling agreement: the constant cap applied here is the hard cap the public farm listings use (their largest constant)
+        Q = W.run("farm_manager", "query", ("Farms",))
+        caps = [n for e in _farm_takes(Q) for n in map(_num, all_origins(e.extra["dargs"][1])) if n is not None]
+        here = [n for e in takes for n in map(_num, all_origins(e.extra["dargs"][1])) if n is not None]
+        if caps and here:
+            chk.expect(min(here) >= max(caps), "PROV-farm-enumeration-bound", lab + ".hard-cap", "constant cap %d = the farm listings' hard cap" % max(caps),
+                       "farms are enumerated under a constant cap of %d although farm listings allow %d: farms beyond it silently earn / receive nothing" % (min(here), max(caps)), where(takes[0]))
+
+
+def farm_expiry_epoch(chk, A, lab):
+    """a farm that preliminarily ends at epoch e (inclusive) is measured against the start of epoch e + 1: every Epoch{id} query
+    whose id derives from the stored preliminary_end_epoch goes through an addition (best effort: skipped when the expiry is
+    not decided from such a query)"""
+    qs = []
+    for e in A.calls(r"query_wasm_smart$"):
+        da = e.extra.get("dargs", [])
+        if len(da) < 3:
+            continue
+        idv = opmap(vfield(vfield(da[2], "Epoch"), "id"))
+        if any(o.endswith(".preliminary_end_epoch") for o in idv):
+            qs.append((e, idv))
+    if not qs:
+        chk.skip("PROV-farm-expiry-epoch", lab, "no Epoch{id <- preliminary_end_epoch} query on this path")
+        return
+    for (e, idv) in qs:
+        pe = [ops for o, ops in idv.items() if o.endswith(".preliminary_end_epoch")]
+        chk.expect(all("add" in ops and not (ops & {"sub", "sat", "wrap"}) for ops in pe), "PROV-farm-expiry-epoch", lab,
+                   "expiry is measured from the start of the epoch after the farm's last one (end + 1)",
+                   "the expiry query asks for epoch %s: the farm's last epoch itself, so the farm counts as expired one epoch early" % {k: sorted(v) for k, v in idv.items()}, where(e))
 
 
 def no_truncation(chk, A, elem_pat, lab, rule):
@@ -221,6 +259,102 @@ def no_truncation(chk, A, elem_pat, lab, rule):
            if any(re.search(elem_pat, o) for o in all_origins(vfield(A.d(e.extra["dargs"][0]), "[*]")))]
     chk.expect(not bad, rule, lab, "every element is processed, in order", "the processed sequence goes through `%s`" % (bad[0].name.rsplit("::", 1)[-1] if bad else ""),
                where(bad[0]) if bad else "")
+
+
+def loop_accumulators(W, chk, crates, rule="ACC-loop-carried"):
+    """sums built in loops accumulate: a variable living across iterations that is assigned `a + element-derived` has
+    its own previous value among the operands (engine/accum.py).  Positive control: the rule must fire on the stored
+    fixture body (the reverse-quote fee loop with the accumulator rebuilt from its base)."""
+    import json
+    import os
+    import accum
+    import facts
+    fx = os.path.join(os.path.dirname(os.path.dirname(os.path.abspath(__file__))), "fixtures", "accum_overwrite.json")
+    with open(fx) as f:
+        fb = facts.Body(json.load(f)["bodies"][0], "fixture")
+    _, fv = accum.scan_body(fb)
+    chk.expect(len(fv) == 1 and fv[0]["var"] == "fees", rule, "positive-control", "the rule fires on the stored fixture (overwritten accumulator)",
+               "the accumulator rule no longer fires on its fixture: %s" % fv, "fixtures/accum_overwrite.json")
+    nb, accs, viol = accum.scan(W.F, crates)
+    seen = set()
+    for a in accs:
+        k = "%s:%s" % (short_id(a["fn"]), a["var"])
+        if k in seen:
+            continue
+        seen.add(k)
+        chk.ok(rule, k, "accumulates (%s)" % a["form"])
+    for v in viol:
+        chk.fail(rule, "%s:%s" % (short_id(v["fn"]), v["var"]), v["why"], "%s (%s)" % (v["span"], short_id(v["fn"])))
+    chk.notes.append("%s: %d bodies of %s scanned, %d loop accumulators, %d overwritten" % (rule, nb, list(crates), len(accs), len(viol)))
+
+
+def _fixture(name):
+    import json
+    import os
+    import facts
+    fx = os.path.join(os.path.dirname(os.path.dirname(os.path.abspath(__file__))), "fixtures", name)
+    with open(fx) as f:
+        d = json.load(f)
+    return facts.Body(d["bodies"][0], "fixture"), d
+
+
+def visited_fns(*analyses):
+    return {e.fn for A in analyses for e in A.events}
+
+
+def loop_chains(W, chk, crates, rule="CHAIN-loop-carried", only=None):
+    """`x = f(x)` chains in loops (hop k's output is hop k+1's input): the carried variable is re-assigned from the call's result on
+    every path from the call back to the loop head (engine/accum.py).  Positive control: the stored fixture body (the simulated route
+    with the carried amount updated only under a condition) must be reported."""
+    import accum
+    fb, _ = _fixture("chain_conditional.json")
+    _, fv = accum.chained_updates(fb)
+    chk.expect(any(v["var"] == "amount" for v in fv), rule, "positive-control", "the rule fires on the stored fixture (conditionally updated chain)",
+               "the chain rule no longer fires on its fixture", "fixtures/chain_conditional.json")
+    n = 0
+    seen = set()
+    for c in crates:
+        for b in W.F.fns(c):
+            if b.kind not in ("fn", "closure") or (only is not None and b.id not in only):
+                continue
+            n += 1
+            ch, vi = accum.chained_updates(b)
+            for x in vi:
+                k = "%s:%s" % (short_id(x["fn"]), x["var"])
+                if k not in seen:
+                    seen.add(k)
+                    chk.fail(rule, k, x["why"], "%s (%s)" % (x["span"], short_id(x["fn"])))
+            for x in ch:
+                k = "%s:%s" % (short_id(x["fn"]), x["var"])
+                if k not in seen:
+                    seen.add(k)
+                    chk.ok(rule, k, "re-assigned from `%s` on every path to the next iteration" % x["call"])
+    chk.notes.append("%s: %d bodies of %s scanned, %d chained variables" % (rule, n, list(crates), len(seen)))
+
+
+def all_elements_processed(chk, W, A, elem_pat, lab, rule):
+    """the loop that consumes a request's vector leaves only when the vector is exhausted or with an error: no `break` (or other
+    jump to the loop's normal continuation) from inside the body.  The loop is found by what it iterates, not by name; when the
+    vector is consumed by iterator combinators instead of a loop the obligation is skipped (no_truncation covers adaptors)."""
+    import accum
+    fb, d = _fixture("loop_early_break.json")
+    chk.expect(bool(accum.early_exits(fb, d["next_bb"])), rule, "positive-control(early-exit)", "the rule fires on the stored fixture (hop loop with a break)",
+               "the early-exit rule no longer fires on its fixture", "fixtures/loop_early_break.json")
+    sites = {}
+    for e in A.calls(r"Iterator>?::next$"):
+        el = all_origins(vfield(A.d(e.extra["dargs"][0]), "[*]")) if e.extra.get("dargs") else set()
+        if any(re.search(elem_pat, o) for o in el):
+            sites[(e.fn, e.bb)] = e
+    if not sites:
+        chk.skip(rule, lab, "no loop over the request's vector found (consumed by combinators)")
+        return
+    for (fn, bb), e in sorted(sites.items()):
+        ex = accum.early_exits(W.F.get(fn), bb)
+        if ex is None:
+            chk.skip(rule, lab + ":" + short_id(fn), "loop shape not recognised")
+            continue
+        chk.expect(not ex, rule, lab + ":" + short_id(fn), "the loop ends only when every element was processed (or with an error)",
+                   "the loop over the request's vector can be left early (%d exit edge(s) to the normal continuation): later elements are silently skipped" % len(ex), where(e))
 
 
 def positions(v):
